@@ -62,7 +62,7 @@ Definition cs_grow_refs (rs : list cref) (rid : Z) : list cref :=
   rs ++ repeat cs_empty_ref (Z.to_nat (rid + 1 - zlen rs)).
 
 Definition cs_add (ix : cindex) (r : irec) : outcome cindex :=
-  if negb (cs_valid_pos (q_start r) (c_ms ix) (c_dp ix)) || negb (cs_valid_pos (q_end r) (c_ms ix) (c_dp ix))
+  if negb (cs_valid_pos (q_start r) (c_ms ix) (c_dp ix)) || negb (cs_valid_pos (q_end r - 1) (c_ms ix) (c_dp ix))
   then Err 1 else
   let um := match c_unm ix with Some u => u | None => 0 end in
   if negb (q_placed r)
